@@ -851,7 +851,9 @@ func simplePath(v refmatch.Variant, flow, routers int, reach bool, base time.Dur
 // lookup is exact; scanning /proc/net/udp is not (entries are missed while other sockets come and go).
 func portHeld(proto string, local netip.Addr, port uint16) bool {
 	if proto == "syn" {
-		l, err := net.Listen("tcp", fmt.Sprintf(":%d", port))
+		// on the address the probes carry, not on the wildcard: a reservation made on some other local address (e.g.
+		// loopback only) would make a wildcard bind fail too, and reserve nothing
+		l, err := net.Listen("tcp4", netip.AddrPortFrom(local.Unmap(), port).String())
 		if err != nil {
 			return errors.Is(err, syscall.EADDRINUSE)
 		}
